@@ -118,6 +118,9 @@ class Contract:
         self.merge = merge
         self.kf_region = kf_region      # known-finding region (spec expr over params): ensures hold outside it
         self.kf_id = kf_id
+        self.defines = []               # definitional namings: `result == name(args)` assumed at call sites only (name is the
+                                        # uninterpreted SMT name of this pure function's result; only functional consistency is used)
+        self.match_params = {}          # parameter name -> qualified name of the regex whose match object it is
         self.joined_locals = ()         # local lists only appended to and ''.join-ed: represented by their concatenation
         self.strmode = strmode
         self.allow_overapprox_regex = allow_overapprox_regex
@@ -458,6 +461,8 @@ class Engine:
         return self.obligations
 
     def fresh_param(self, name, pt, st):
+        if name in self.c.match_params:
+            return self.world.rx.fresh_match_param(self, name, self.c.match_params[name], st)
         if isinstance(pt, ObjType):
             term = z3.Const(f'{name}', pt.rec.sort())
             obj = VObj(name, pt, term)
@@ -1230,6 +1235,8 @@ class Engine:
             st.guards.pop()
         m = self.merge_val(c, a, b)
         if m is None:
+            if isinstance(a, VPy) and isinstance(b, VPy):
+                return VPy(('choice', c, a, b))
             raise Unsupported('conditional expression with arms of unrelated sorts', e)
         return m
 
@@ -1381,6 +1388,9 @@ class Engine:
 
     def ex_Subscript(self, e, st):
         base = self.ev(e.value, st)
+        if isinstance(base, V) and isinstance(base.t, TOpt):
+            self.may_raise(st, 'TypeError', base.t.is_none(base.term), 'subscript of None')
+            base = V(base.t.inner, base.t.val(base.term))
         if isinstance(e.slice, ast.Slice):
             return self.slice(base, e.slice, st, e)
         idx = self.ev(e.slice, st)
